@@ -102,6 +102,10 @@ type interpreter struct {
 	curG      *goroutine
 	harnessState map[string]value
 	program   *Program
+	locks     map[*value]*lockState
+	onces     map[*value]int
+	wgs       map[*value]int
+	timers    map[*value]*vtimer
 }
 
 type deferred struct {
@@ -267,6 +271,9 @@ func visitInstr(fr *frame, instr ssa.Instruction) continuation {
 
 	case *ssa.If:
 		succ := 1
+		if p, ok := fr.get(instr.Cond).(poison); ok {
+			panic(initAbort{"branch on a poisoned value in " + fr.fn.String() + ": " + p.why})
+		}
 		if fr.i.truth(fr.get(instr.Cond)) {
 			succ = 0
 		}
